@@ -51,6 +51,9 @@ THEOREMS = [
     "Nix.C08.C08_region_multi",
     "Nix.C08.C08_feature_tag",
     "Nix.C08.C08_feature_multi",
+    "Nix.C08.C08_zero_extent",
+    "Nix.C08.C08_no_position_whole",
+    "Nix.C08.C08_units_short_refused",
     "Nix.C08.C08_reference_lookup",
     "Nix.C08.C08_tagged_by_key",
     "Nix.C08.C08_region_by_key",
